@@ -20,6 +20,7 @@ META = {
         "Not decided: 'never a schedule stitched from two versions' as a trace property; termination of the fragment loop."
     ),
 }
+META["explanation"] += " C18.R3 also: decision table of _is_dated - with force_io a 'not dated' answer follows an I/O read of the change counter."
 
 MUTATORS = {"append", "extend", "insert", "pop", "remove", "clear", "update", "setdefault", "popitem", "sort", "reverse", "add", "discard"}
 
